@@ -480,9 +480,13 @@ def _handle_expr(node: ast.expr, ctx: Context) -> sympy.Expr | None:
             elif isinstance(op, ast.LtE):
                 comparisons.append(prev_value <= right)
             elif isinstance(op, ast.Eq):
-                comparisons.append(prev_value == right)
+                # == / != on sympy objects compare structure, not value
+                comparisons.append(sympy.Eq(prev_value, right))
             elif isinstance(op, ast.NotEq):
-                comparisons.append(prev_value != right)
+                comparisons.append(sympy.Ne(prev_value, right))
+            else:
+                msg = f"Comparison {type(op).__name__} not implemented"
+                raise NotImplementedError(msg)
 
             prev_value = right
 
